@@ -18,6 +18,7 @@ import (
 	"github.com/irai/packet"
 	"verif/harness/core"
 	"verif/harness/frames"
+	"verif/harness/ndpgen"
 	"verif/harness/sess"
 )
 
@@ -188,6 +189,8 @@ func evalValid(view string, b []byte) string {
 
 var hung = map[string]bool{}
 
+var icmpBroken bool
+
 func evalGet(view, method string, b []byte) string {
 	buf := tight(b)
 	run := core.Safely
@@ -271,6 +274,27 @@ func evalParse(c cfg, spare int, b []byte, stale ...byte) (impl string, fr packe
 	}
 	copy(full[len(b):], stale) // spare capacity holding the tail of an earlier, longer packet
 	buf = full[:len(b)]
+	// echo replies: parse them while a ping with that identifier is pending, and twice (a duplicate reply
+	// must not disturb Parse) — the waiter table is process-global state Parse touches
+	echoID := -1
+	if len(b) >= 42 && b[12] == 8 && b[13] == 0 && b[14]&0x0f == 5 && b[23] == 1 && b[34] == 0 {
+		echoID = int(b[38])<<8 | int(b[39])
+	} else if len(b) >= 62 && b[12] == 0x86 && b[13] == 0xdd && b[20] == 58 && b[54] == 129 {
+		echoID = int(b[58])<<8 | int(b[59])
+	}
+	if echoID >= 0 && !icmpBroken {
+		r := core.WithTimeout(3*time.Second, func() string {
+			packet.VerifICMPProbe([]uint16{uint16(echoID)}, func() {
+				s.Parse(buf)
+				s.Parse(buf)
+			})
+			return "ok"
+		})
+		if r != "ok" {
+			icmpBroken = true // a panic inside the locked waiter table leaves it locked for good
+			return r, fr, perr, buf
+		}
+	}
 	impl = core.Safely(func() string {
 		fr, perr = s.Parse(buf)
 		f := fr
@@ -435,8 +459,8 @@ func Eval(c *core.Ctx, line string) *core.Case {
 			return impl == dropEcho(m)
 		}
 		cs.OracleR = func(reply string) (string, string) {
-			if impl == "panic" {
-				return "Session.Parse panicked", ""
+			if impl == "panic" || impl == "hang" {
+				return "Session.Parse " + impl + "s (echo reply parsed twice while a ping with its identifier is pending)", ""
 			}
 			if strings.Contains(impl, "=panic") {
 				return "a Frame accessor panicked after Parse returned nil error: " + impl, ""
@@ -766,6 +790,42 @@ func genViews(c *core.Ctx) {
 		}
 		for k := 0; k < c.Scale(60, 3000); k++ {
 			inputs = append(inputs, shapeView(c, view, c.RandBytes(min+r.Intn(80))))
+		}
+		if view == "ICMP6RouterAdvertisement" || view == "ICMP6RouterSolicitation" {
+			// the Options() accessor: well-formed and mutated NDP option lists behind the fixed part
+			fixed := 16
+			if view == "ICMP6RouterSolicitation" {
+				fixed = 24 // RS.Options() starts at byte 24
+			}
+			for k := 0; k < c.Scale(400, 20000); k++ {
+				opts := ndpgen.RandOptions(r, 5)
+				if r.Intn(3) == 0 {
+					opts = ndpgen.Mutate(r, opts)
+				}
+				if k%10 == 0 {
+					// DNSSL whose last label ends exactly on the option's last byte (no terminator, no padding)
+					units := 2 + r.Intn(3)
+					body := make([]byte, 0, units*8)
+					body = append(body, 31, byte(units), 0, 0, 0, 0, 0, byte(r.Intn(256)))
+					room := units*8 - 8
+					for room > 0 {
+						l := 1 + r.Intn(room)
+						if room-l == 1 { // cannot leave a single byte: take it all
+							l = room
+						}
+						l--
+						body = append(body, byte(l))
+						body = append(body, []byte("abcdefghijklmnopqrstuvwxyz")[:l]...)
+						room -= l + 1
+					}
+					opts = append(opts, body...)
+				}
+				b := append(c.RandBytes(fixed), opts...)
+				if view == "ICMP6RouterSolicitation" {
+					b[0] = 133
+				}
+				inputs = append(inputs, b)
+			}
 		}
 		for _, in := range inputs {
 			h := core.Hex(in)
